@@ -180,8 +180,20 @@ fn hist_case(ctx: &mut Ctx, h: &Hist) {
 
 const TYPE_UNIVERSE: &[&str] = &[
     "t", "T", "tT", "t1", "T+", "a.b-c", "1t", "", "!", "t/", "é", "T%41", "É", "t t", "T\0", "-", "+.", "averyveryverylongtypename.x", "AVERYVERYVERYLONGTYPENAME+X",
-    "averyveryverylongtypename!", "ǅ", "K", "\u{212A}", "t\u{301}",
+    "averyveryverylongtypename!", "ǅ", "K", "\u{212A}", "t\u{301}", ".", "..", "...", ".a", "a.", "+", "--", "0", "\r", "deb\r", "a\u{b}",
 ];
+
+fn long_types() -> Vec<String> {
+    let mut v = Vec::new();
+    for n in [23usize, 24, 64, 255, 256, 257, 300, 1024, 65_536] {
+        v.push("a".repeat(n));
+        v.push(format!("X{}", "a".repeat(n)));
+        v.push(format!("{}-2", "a".repeat(n)));
+        v.push(format!("{}!", "a".repeat(n)));
+        v.push("Z".repeat(n));
+    }
+    v
+}
 
 pub fn run(ctx: &mut Ctx) {
     // parser: complete token language, legal spellings, mutated corpus
@@ -223,6 +235,15 @@ pub fn run(ctx: &mut Ctx) {
     }
     if ctx.worker == 0 {
         ctx.st.exhaustive.push(json!({"name": format!("{} type strings x {{name, empty name}} x (no call | each of {} call forms), 4 type parameters", TYPE_UNIVERSE.len(), calls.len()), "size": idx, "completed": true}));
+        // long type strings (length limits applied to one type parameter only)
+        for ty in long_types() {
+            for call in [None, Some(hist::Call::Rebuild), Some(hist::Call::Ver("1".into()))] {
+                let h = Hist { ty: ty.clone(), name: "n".into(), calls: call.into_iter().collect() };
+                hist_case(ctx, &h);
+                // and through the parser
+                parse_case(ctx, &format!("pkg:{ty}/n@1"));
+            }
+        }
     }
     let mut r = ctx.rng("c13.g4");
     for _ in 0..ctx.share(300_000, 8_000_000) {
